@@ -62,15 +62,22 @@ NOT DECIDED
   * that `self.instructions` is what generate_row / end_sequence / begin_sequence produced (wline, K-LINEGEN) - the clause is about
     whatever the list holds; that the unit's DW_AT_stmt_list points here (wunit_layout);
   * `Ok` is never guaranteed.  On Err the emitted prefix is not characterised beyond `grew`.
-SELF-ATTACK (scratch copies of /repo under /tmp, GIMLI_REPO; 2026-09-24) - see the report of this batch: seeded C13-b
-  (`instruction.write(w, encoding)`) -> program-insns-own-encoding + program-insns-len (+ insn-file-pre at the call);
-  loop body written twice; SetDiscriminator skipped with `continue`; result of the write discarded; extra byte after the loop;
-  `.iter().rev()` / `.iter().skip(1)` (iterator adapters: rejected by Verus = exit 2, never exit 0).
+SELF-ATTACK (scratch copies of /repo/src under /tmp, GIMLI_REPO; 2026-09-24; "own" = program-insns-own-encoding, "len" = program-insns-len)
+  seeded C13-b `instruction.write(w, encoding)?`                        -> exit 1: own, len (invariants), insn-file-pre (at the call)
+  `instruction.write(w, Encoding { version: 5, ..self.encoding })?`     -> own, len
+  call written twice in the loop body                                   -> own, len
+  result discarded (`let _unused = instruction.write(..);`, no `?`)     -> own, len
+  `w.write_u8(0)?;` after the loop (inside the emission part)           -> own, len (postconditions)
+  `for instruction in self.instructions.iter().rev()`                   -> own, len, insn-file-pre (Verus 0.2026.09 ACCEPTS rev/skip
+  `for instruction in self.instructions.iter().skip(1)`                 -> own, len, insn-file-pre   as for-loop iterators)
+  `if let SetDiscriminator(_) = *instruction { continue; }`             -> exit 2 (Verus: "for-loops do not yet support continue")
+  header: `w.write_u16(encoding.version)?`                              -> exit 2 (X-HEADER-ENC, Lost)
+  `let length = ..` renamed                                             -> exit 2 (R-TAIL anchor A2, Lost)
 """
 import re
 from lib import *
 from batches import core, wcore, wline_insn
-from batches.wline_insn import fields_of, active_rows, enum_variants, tag_of
+from batches.wline_insn import fields_of, active_rows, enum_variants
 
 TRUSTED = list(wline_insn.TRUSTED)
 OWN = ['C13']
@@ -317,7 +324,7 @@ def populate(ctx, sk):
     ENC = 'self.encoding'          # the line program's OWN encoding: the only one the specification mentions
     insert_at(im, cb,
               f'proof {{ let k = it.index@; lemma_insn_wrote(*{x}, {ENC}, wprev, {WC}); lemma_insns_step({ENC}, {S}, k); '
-              f'if insn_emitted(*{x}, {ENC}, wprev, {WC}) {{ lemma_wrote_wrote({W0}, wprev, {WC}, insns_ops({ENC}, {S}.take(k)), insn_ops({S}[k], {ENC})); }} }}\n        ')
+              f'if insn_emitted(*{x}, {ENC}, wprev, {WC}) {{ lemma_wrote_wrote({W0}, wprev, {WC}, insns_ops({ENC}, {S}.take(k)), insn_ops(*{x}, {ENC})); }} }}\n        ')
     # (no assertion about `*{x}` here: a failed hint would be ASSUMED afterwards and mask the clause; that the loop variable is
     # element it.index@ of the list is what Verus' for-loop encoding of `&Vec` gives - for any other iterator the invariant fails)
     insert_at(im, ob + 1, f'\n            let ghost wprev = {WC}; proof {{ assert(insn_pre({S}[it.index@], {ENC})); }} // [C13:insn-file-pre]')
